@@ -319,6 +319,8 @@ def run(chk, replay=None):
 
     # ---- cases -----------------------------------------------------------
     cases = []
+    if replay and "case" not in json.load(open(replay)).get("replay", {}):
+        replay = None          # a proof / translator / correspondence replay names no input: run the whole check again
     if replay:
         r = json.load(open(replay))
         cases = [r["replay"]["case"]]
@@ -333,7 +335,7 @@ def run(chk, replay=None):
         cases += gen_ring(rng, 20 if not thorough else 200)
         cases += gen_tune(rng, 1500 if not thorough else 20000)
         cases += gen_comp(rng, 300 if not thorough else 3000, 100 if not thorough else 200)
-        cases += gen_runs(rng, 420 if not thorough else 4200, thorough)
+        cases += gen_runs(rng, 420 if not thorough else 3000, thorough)     # each case = 1..3 runs on one object
         cases += gen_search(rng, 40 if not thorough else 400)
 
     # ---- harness (sharded) + driver ----------------------------------------
